@@ -59,6 +59,9 @@ CLAIMS = {
  "C19": dict(cat="exploration", tech="rapid generation of (repository URL, chart URL) pairs by relation class, redirects, second repositories and credential placements; every request captured by local listeners (custom dialers / HTTP_PROXY + CONNECT); origin predicate as oracle",
    text="Five real paths (HTTPGetter, ChartDownloader.DownloadTo, LocateChart --repo, Manager.Update, helm pull) run against local capture listeners; any captured request carrying the repository's configured credentials must be on the repository's scheme/host/port unless pass-credentials, including provenance fetches and redirects to unrelated domains.",
    note="No real network: all hosts are dialled to local listeners; same-domain redirects that keep credentials are counted, not judged; OCI and plugin getters not covered."),
+ "C20": dict(cat="exploration", tech="rapid structure-aware and byte-level mutation of valid seeds for eleven input kinds through the public entry points under a recover guard, a watchdog and a dead-process attribution file; native coverage-guided fuzz targets with the same oracle in the thorough tier",
+   text="Mutated charts (Chart.yaml incl. import-values, values, schema, templates, subcharts), --set lines, values files, indexes, manifest streams, stored release records next to good ones, provenance/keyring files, .helmignore, plugin.yaml and schemas go through load -> dependencies -> values -> render -> sort, lint, every strvals parser, index queries, storage reads, verification, ignore and plugin loading: no panic (root cause = first Helm frame), no hang, no process death, and lists over stored records still return every readable record.",
+   note="Inputs bounded to ~100 KB; 30 s watchdog; OCI/SQL/plugin execution not exercised; seven genuine crashes were repaired in helm (fixed: lines)."),
 }
 
 props = [json.loads(l) for l in open('/verif/properties.jsonl')]
